@@ -327,7 +327,9 @@ pub fn run_c01(outdir: &str, seed: u64, thorough: bool) -> serde_json::Value {
             else if r.chance(1, 7) { st.bump("attribute_join_queries"); r.pick(&attr_joins).to_string() } else { gen_agg_query(&mut r) };
         // the number of groups per unit is not capped (the cap draws RANDOM() ranks, which two executions do not share)
         let p: DpParameters = if pinned { DpParameters::from_epsilon_delta(1.0, 1e-5) } else { let q = gen_params(&mut r);
-            DpParameters::new(q.epsilon, q.delta, q.tau_thresholding_share, q.privacy_unit_max_multiplicity, q.privacy_unit_max_multiplicity_share, 1000) };
+            // (a zero multiplicity makes every clipping bound 0 and the scale factor the literal 0: that case belongs to C03)
+            let (m, ms) = (if q.privacy_unit_max_multiplicity == 0.0 { 100.0 } else { q.privacy_unit_max_multiplicity }, if q.privacy_unit_max_multiplicity_share == 0.0 { 0.1 } else { q.privacy_unit_max_multiplicity_share });
+            DpParameters::new(q.epsilon, q.delta, q.tau_thresholding_share, m, ms, 1000) };
         let rel = match catch_unwind(AssertUnwindSafe(|| to_relation(&w, &sql))) { Ok(Ok(rel)) => rel, _ => continue };
         let rw = match catch_unwind(AssertUnwindSafe(|| rel.rewrite_with_differential_privacy(&w.relations, None, w.privacy_unit.clone(), p.clone()))) { Ok(Ok(rw)) => rw, _ => { st.bump("rewrite_failed"); continue; } };
         let sites: Vec<NoiseSite> = noise_sites(rw.relation()).into_iter().filter(|s| s.column != "_COUNT_DISTINCT_PID_").collect();
